@@ -1,12 +1,15 @@
 (* C12 -- name-based lookups are the first match of the enumerated attributes / namespaces.
-   Statements pinned here; proofs in Proofs/LookupProofs.v. *)
-From Coq Require Import List NArith.
+   Statements are pinned here (copied verbatim from the proof files by tools/pin_props.py);
+   each is re-proved by `exact` and followed by Print Assumptions. *)
+From Coq Require Import Ascii String.
+From Coq Require Import List NArith Bool PeanoNat Sorted.
 Import ListNotations.
 From RX Require Import Generated.
-From RX.Model Require Import Base Stream Tokenizer Doc Builder Api.
+From RX.Model Require Import Base CharClass Stream Tokenizer Doc Builder Parse Api.
 From RX.Proofs Require Import LookupProofs.
 Open Scope N_scope.
 
+(* ---- Proofs/LookupProofs.v ---- *)
 Theorem C12_attribute_node_first_match :
   forall text d id name l r,
   enum_attrs d id = Ok l -> attribute_node text d id name = Ok r ->
